@@ -5,6 +5,7 @@
 From Vib Require Import Model.Base Model.Lattice Model.Tokenizer Model.DictBuild Check.TokCheck.
 
 Definition sent_oracle_c04 (so : sentobs) : bool :=
+  (so_pre so =? 0)%N &&      (* nothing of an earlier sentence is readable once the sentence is replaced *)
   if (so_outcome so =? 0)%N
   then forallb (fun alt => list_eqb dtoken_eqb alt (so_tokens so)) (so_alt so)
   else true.
